@@ -711,6 +711,11 @@ fn codegen_op_http_call(op: &Operation) {
             g!("resp.headers.extend(s3_resp.headers);");
         }
 
+        // `S3Response::status` overrides the status code implied by the output
+        g!("if let Some(status) = s3_resp.status {{");
+        g!("    resp.status = status;");
+        g!("}}");
+
         g!("resp.extensions.extend(s3_resp.extensions);");
     }
     g!("Ok(resp)");
